@@ -39,7 +39,8 @@ ASSUMPTIONS = [
     "paralinear / LogDet: a zero diagonal count is replaced by 0.5 before normalising (cogent3's documented convention)",
     "where a formula is undefined (0 comparable columns, log of a non-positive number, exactly singular matrix, division "
     "by zero) the implementation must give nan / None / ArithmeticError; exact rational arithmetic decides 'undefined'",
-    "a pair with >= 1 comparable column and no observed difference may be reported as 0 by every estimator; TN93 with a base "
+    "a pair with >= 1 comparable column and no observed difference, and a pair of identical strings, may be reported as 0 by "
+    "every estimator; TN93 with a base "
     "absent from both sequences may be undefined (formula as printed) or the limit value",
     "columns in which either sequence has a gap or an ambiguity code are excluded (documented); "
     "the distance of a pair depends only on that pair's columns",
@@ -162,6 +163,11 @@ def check_seqs(seqs, moltype, array_align, ests, entries, acc, part):
     names = SEQNAMES[:k]
     mats = pair_matrices(seqs, letters)
     allowed = {p: D.allowed(m, letters, ests) for p, m in mats.items()}
+    for (i, j), a in allowed.items():
+        if seqs[i] == seqs[j]:  # identity of a distance: d(x, x) = 0 is always acceptable
+            for v in a.values():
+                if 0.0 not in v:
+                    v.append(0.0)
     nontrivial = any(not D.is_identical(m) for m in mats.values())
     fuzzy_dup = equal_up_to_noncanonical(seqs, mats)
     case = {"part": part, "seqs": list(seqs), "moltype": moltype, "array_align": array_align}
@@ -242,6 +248,7 @@ def realise(flat, base, letters):
 def run_est(spec, acc):
     n, b = spec["n"], spec["b"]
     variants = n <= spec["vt"]
+    done = 0
     for idx, flat in enumerate(D.count_matrices(n)):
         if idx % spec["of"] != spec["chunk"]:
             continue
@@ -252,7 +259,8 @@ def run_est(spec, acc):
         if variants:
             check_seqs(realise(flat, b, "ACGU"), "rna", True, NUC_ESTS, ENTRIES_MAIN, acc, "matrix")
             check_seqs(seqs, "dna", False, NUC_ESTS, ENTRIES_MAIN, acc, "matrix")
-        if idx % 997 == 0:
+        done += 1
+        if done == 3:
             acc.sample({"count_matrix(ACGT x ACGT)": list(flat), "plus_identity_columns": b, "seqs": list(seqs)},
                        f"matrix{n}")
 
